@@ -44,13 +44,14 @@ def euler_bcsets(rho, u, p, G=1.4):
                                     (("insub", "outsub"), ("outsub", "insub"), ("insub_cbc", "insub"), ("outsub_qtot", "outsub_rh"), ("outsub_nrcbc", "insub_cbc"),
                                      ("insub", "insub"), ("outsub_rh", "outsub_nrcbc"), ("outsub_prim", "outsub_qtot"))]
         sets += [("sym", e("outsub")), (e("insub"), "sym")]
-    elif abs(M) < 1:
-        pairs = [(a, b) for a in sub_in for b in sub_out]
-        sets += [(e(a), e(b)) if M > 0 else (e(b), e(a)) for a, b in pairs]
-        sets += [(("dirichlet", [rho, u, p]), e("outsub")) if M > 0 else (e("outsub"), ("dirichlet", [rho, u, p]))]
+        sets += [(e("insup"), e("outsup")), (e("outsup"), e("insup")), (e("insup"), e("insup")), (e("insup"), e("outsub_nrcbc")), ("sym", e("insup"))]
     else:
-        sets += [(e("insup"), e("outsup")) if M > 0 else (e("outsup"), e("insup"))]
-        sets += [(("dirichlet", [rho, u, p]), e("outsup")) if M > 0 else (e("outsup"), ("dirichlet", [rho, u, p]))]
+        # every inlet condition on the side the flow enters with every outlet condition on the side it leaves: the property asks for
+        # "conditions whose parameters are those of the state itself", whatever the Mach regime the condition was designed for
+        pairs = [(a, b) for a in sub_in + ["insup"] for b in sub_out + ["outsup"]]
+        sets += [(e(a), e(b)) if M > 0 else (e(b), e(a)) for a, b in pairs]
+        out1 = "outsub" if abs(M) < 1 else "outsup"
+        sets += [(("dirichlet", [rho, u, p]), e(out1)) if M > 0 else (e(out1), ("dirichlet", [rho, u, p]))]
     inlet = lambda b: (not isinstance(b, str)) and b[0] in ("insub", "insub_cbc", "insup", "outsub_qtot")
     cond = 1.0 + (2.0 / ((G - 1) * M * M) if M != 0 else 0.0)
     return [(s, cond if (inlet(s[0]) or inlet(s[1])) else 1.0) for s in sets]
@@ -191,13 +192,16 @@ def bc2d_families(rho, M, ang_deg, p):
         inlet_tag = ("left", "bottom", "right", "top")[k]
         outlet_tag = ("right", "top", "left", "bottom")[k]
         others = [t for t in T if t not in (inlet_tag, outlet_tag)]
-        i_name, o_name = ("insub", "outsub") if M < 1 else ("insup", "outsup")
-        for side in ("sym", "per"):
-            b = {inlet_tag: dict(par, type=i_name), outlet_tag: dict(par, type=o_name)}
-            for t in others:
-                b[t] = {"type": side}
-            fam.append(("%s->%s/%s" % (i_name, o_name, side), b, cond))
-    if M > 1:
+        # the pair designed for the regime with both kinds of side walls, the pair designed for the other regime (parameters of the state
+        # itself: still a fixed point) with periodic sides
+        for (i_name, o_name), sides in (((("insub", "outsub"), ("sym", "per")), (("insup", "outsup"), ("per",))) if M < 1 else
+                                        ((("insup", "outsup"), ("sym", "per")), (("insub", "outsub"), ("per",)))):
+            for side in sides:
+                b = {inlet_tag: dict(par, type=i_name), outlet_tag: dict(par, type=o_name)}
+                for t in others:
+                    b[t] = {"type": side}
+                fam.append(("%s->%s/%s" % (i_name, o_name, side), b, cond))
+    if M > 0:
         # oblique supersonic inflow with the 'angle' parameter
         if -90 < ((ang_deg + 180) % 360 - 180) < 90:
             b = {"left": dict(par, type="insup", angle=float(ang_deg)), "right": {"type": "outsup"}, "bottom": {"type": "per"}, "top": {"type": "per"}}
